@@ -333,6 +333,58 @@ func (j *Judge) Maintain(c *Context, res *drummer.VerifSchedResult, exhausted bo
 			}
 		}
 	}
+	// ... and that classification is the one the views dictate at this round's logical time (C05), not one left over from
+	// an earlier round: what the round decides is justified by the view it was computed from (C02, C12)
+	{
+		want := map[uint64][3]map[uint64]bool{}
+		for sid, v := range c.ShardImage.Shards {
+			f, o, w := map[uint64]bool{}, map[uint64]bool{}, map[uint64]bool{}
+			for rid, m := range v.Replicas {
+				failed := (m.Tick == 0 && m.FirstObserved == 0) || (m.Tick != 0 && c.Tick-m.Tick > TTL)
+				switch {
+				case failed:
+					f[rid] = true
+				case m.Tick == 0:
+					w[rid] = true
+				default:
+					o[rid] = true
+				}
+			}
+			if len(f) > 0 || len(w) > 0 {
+				want[sid] = [3]map[uint64]bool{f, o, w}
+			}
+		}
+		same := len(want) == len(cls)
+		why := fmt.Sprintf("%d views need repair, the scheduler lists %d", len(want), len(cls))
+		for sid, k := range cls {
+			x, ok := want[sid]
+			if !ok {
+				same, why = false, fmt.Sprintf("shard %d is listed for repair but its view has no failed or waiting member", sid)
+				break
+			}
+			eq := func(a, b map[uint64]bool) bool {
+				if len(a) != len(b) {
+					return false
+				}
+				for q := range a {
+					if !b[q] {
+						return false
+					}
+				}
+				return true
+			}
+			if !eq(k.failed, x[0]) || !eq(k.ok, x[1]) || !eq(k.waiting, x[2]) {
+				same, why = false, fmt.Sprintf("shard %d: the scheduler has failed %v healthy %v waiting %v, the view at time %d gives failed %v healthy %v waiting %v", sid, keys(k.failed), keys(k.ok), keys(k.waiting), c.Tick, keys(x[0]), keys(x[1]), keys(x[2]))
+				break
+			}
+		}
+		run.Count("c05:round_classification_checked")
+		if !same {
+			j.fail("C05", "class_follows_view", "round-classification-not-the-views", why)
+			j.fail("C12", "decision_input", "round-classification-not-the-views", why)
+			j.fail("C02", "decision_input", "round-classification-not-the-views", why)
+		}
+	}
 	restored := map[uint64]int{}
 	changes := map[uint64]int{}
 	kills := map[dbx.DKill]int{}
@@ -561,4 +613,13 @@ func (j *Judge) fence(c *Context, r *pb.NodeHostRequest, k *classes, v *dbx.DSha
 	if !okAddr {
 		j.fail("C02", "sent_to_healthy", kind+"-sent-to-unhealthy", fmt.Sprintf("%s request for shard %d sent to %s which runs no healthy member", kind, sid, r.RaftAddress))
 	}
+}
+
+func keys(m map[uint64]bool) []uint64 {
+	l := []uint64{}
+	for k := range m {
+		l = append(l, k)
+	}
+	sort.Slice(l, func(a, b int) bool { return l[a] < l[b] })
+	return l
 }
